@@ -309,6 +309,36 @@ def run(tier, seed):
             se.disagree({"parts": [n1.desc, n2.desc]}, "intersection / sum", "differs", "add_distribution")
             findings.append(Finding("C13", "add_distribution: bounds are not the intersection or misfit not the sum", {"kind": "add_distribution"},
                                     {"parts": [n1.desc, n2.desc], "x": xx.ravel().tolist()}))
+    # values exactly equal to each other: a mixture whose largest terms tie (the same component listed k times with equal weights; a symmetric
+    # pair evaluated on its symmetry plane). -log sum_i w_i exp(-misfit_i) does not care how many terms share the maximum.
+    for _ in range(24 if thorough else 8):
+        dd = rnd.choice([1, 2, 3])
+        k = rnd.choice([2, 3, 4])
+        mu = np.array([[rnd.uniform(-1, 1)] for _ in range(dd)])
+        var = rnd.choice([0.5, 1.0, 2.0])
+        kind = rnd.choice(["same-component", "symmetric-pair"])
+        if kind == "same-component":
+            comps = [D.Normal(mu.copy(), var) for _ in range(k)]
+            ww = [1.0 / k] * k
+            xx = np.array([[rnd.uniform(-2, 2)] for _ in range(dd)])
+        else:
+            comps = [D.Normal(mu.copy(), var), D.Normal(-mu, var)]
+            ww = [0.5, 0.5]
+            xx = np.zeros((dd, 1))
+            off = np.array([[rnd.uniform(-1, 1)] for _ in range(dd)])
+            off -= mu * (off.T @ mu).item() / max((mu.T @ mu).item(), 1e-300)       # a point of the symmetry plane: equidistant from both means
+            xx = off if rnd.random() < 0.5 else xx
+        mixt = D.Mixture(comps, ww)
+        se.case({"kind": "mixture-ties", "layout": kind, "components": len(comps)})
+        se.count(f"mixture ties: {kind}")
+        with np.errstate(all="ignore"):
+            mm = float(mixt.misfit(xx.copy()))
+            pms = np.array([float(c.misfit(xx.copy())) for c in comps])
+            em = -float(np.log(np.sum(np.array(ww) * np.exp(-(pms - pms.min()))))) + float(pms.min())
+        if not common.close(mm, em, 1e-10, 1e-12):
+            se.disagree({"layout": kind}, em, mm, "mixture with tying terms")
+            findings.append(Finding("C13", f"Mixture whose largest terms tie ({kind}, {len(comps)} components): misfit {mm!r}, expected -log sum w_i exp(-misfit_i) = {em!r} (difference {mm - em:.6f})",
+                                    {"kind": "mixture", "problem": "ties"}, {"layout": kind, "x": xx.ravel().tolist(), "weights": ww, "component_misfits": pms.tolist()}))
     # the change of variables in many dimensions: the log-Jacobian is a sum of logarithms (the Jacobian itself leaves the floating-point range long before its logarithm does)
     for _ in range(24 if thorough else 6):
         dd = rnd.choice([60, 120, 250, 400])
